@@ -21,6 +21,8 @@ def spec_check_wf(env, anns, obs):
         return "violation", "the checks / Unfold do not return: " + obs[:80]
     if c == "PARSE-ERR":
         return "skip", "generated text does not parse"
+    if c == "NOT-RUN":
+        return "skip", "not run"
     o = G.oracle(env)
     if (c == "OK") != o["ok"]:
         if c == "OK" and TS.f15_shaped(env) and TS.f15_is_known(PROP):
